@@ -79,6 +79,33 @@ where
         })
     }
 
+    /// Splits the contents to restore into the prefix the data region still holds
+    /// and the values to re-queue in `pushed`. The current contents agree with the
+    /// rolled-back state below `truncated_start`; anything of that prefix which is
+    /// only buffered right now (an earlier rollback step re-queued it) is carried
+    /// over, followed by the recorded truncated and previously pushed values.
+    pub fn rollback_parts(
+        &self,
+        truncated_start: usize,
+        truncated_values: Vec<T>,
+        prev_pushed: Vec<T>,
+    ) -> Result<(usize, Vec<T>)> {
+        let stored_len = truncated_start.min(self.stored_len());
+        let carried = self
+            .pushed()
+            .get(..truncated_start - stored_len)
+            .ok_or(Error::WrongLength {
+                received: self.len(),
+                expected: truncated_start,
+            })?;
+        let mut pushed =
+            Vec::with_capacity(carried.len() + truncated_values.len() + prev_pushed.len());
+        pushed.extend_from_slice(carried);
+        pushed.extend(truncated_values);
+        pushed.extend(prev_pushed);
+        Ok((stored_len, pushed))
+    }
+
     /// Restores the base rollback state. Caller resolves `stored_len` and
     /// `pushed` from the parsed change data according to its own overlay
     /// strategy (raw uses an `updated` map for truncated values, compressed
